@@ -31,10 +31,10 @@ CHECKS = {
          "All external tasks of the task alphabet and a stride of strong tasks, instantiated with the identifier stress renamings and hand-picked clash tasks, under all 8 flag combinations: every problem text must parse, declare every used symbol exactly once at the type it is used with, bind and type every variable, have unique formula names and exactly one conjecture.",
          "trusted: the TFF reader (symbols identified by name and arity); three identifier-shape findings are listed in KNOWN_FINDINGS.txt", "4 C09"),
  "C12": ("exhaustive evaluation of the preamble axioms over integer windows and of every generated ordering / transition axiom of every problem of the task enumeration",
-         "Preamble axioms are read by the TFF reader and evaluated in the standard interpretation for all assignments over two windows; for every problem of C09's enumeration every symbol_order axiom must be true under the denotation map, the axioms must link all constants, and every transition axiom must hold exactly on interpretations with H subset-of T.",
+         "Preamble axioms are read by the TFF reader and evaluated in the standard interpretation for all assignments over two windows; for every problem of C09's enumeration every symbol_order axiom must be true under the denotation map, the axioms must link all constants (those of Problem::symbols() united with every f__symbolic__(c) read off the emitted text, placeholders excluded), and every transition axiom must hold exactly on interpretations with H subset-of T.",
          "trusted: TFF reader, standard order implemented in engine/src/dom.rs; integer quantifiers over windows as the property itself stipulates", "4 C12"),
  "C17": ("bounded-exhaustive enumeration of (formula, variable, term) x assignments x all classical interpretations; truth-table comparison with environment update",
-         "Every (formula, variable, sort-compatible term) of the binder-heavy families: the truth table of F.substitute(x,t) equals that of F under the assignment updated with the term's value, and the free-variable equation holds.",
+         "Every (formula, variable, sort-compatible term) of the binder-heavy families (atoms, equations, single and chained comparisons): the truth table of F.substitute(x,t) equals that of F under the assignment updated with the term's value, and the free-variable equation holds.",
          "trusted: grounder (both sides have the same binder structure, so windows play no role)", "4 C17"),
 }
 
